@@ -23,25 +23,25 @@ RECURSIVE ExprTerms(_)
 ExprTerms(x) ==
   CASE x.e \in {"var", "fromvar"} -> FromVar(x.k, x.i)
     [] x.e = "one" -> FromVar("1", 0)
-    [] x.e = "const" -> FromConst(x.c)
+    [] x.e = "const" -> FromConst(Norm(x.c))
     [] x.e = "zero" -> << >>
     [] x.e = "add" -> AddLC(ExprTerms(x.a), ExprTerms(x.b))
     [] x.e = "sub" -> SubLC(ExprTerms(x.a), ExprTerms(x.b))
     [] x.e = "neg" -> NegLC(ExprTerms(x.a))
-    [] x.e = "mul" -> IF x.a.e = "var" THEN VarTimes(x.a.k, x.a.i, x.c) ELSE MulLC(ExprTerms(x.a), x.c)
-    [] x.e = "collect" -> x.terms
+    [] x.e = "mul" -> IF x.a.e = "var" THEN VarTimes(x.a.k, x.a.i, Norm(x.c)) ELSE MulLC(ExprTerms(x.a), Norm(x.c))
+    [] x.e = "collect" -> [j \in 1 .. Len(x.terms) |-> <<x.terms[j][1], x.terms[j][2], Norm(x.terms[j][3])>>]
 
 RECURSIVE Denote(_, _)
 Denote(st, x) ==
   CASE x.e \in {"var", "fromvar"} -> TermVal(st, <<x.k, x.i>>)
     [] x.e = "one" -> 1
-    [] x.e = "const" -> x.c
+    [] x.e = "const" -> Norm(x.c)
     [] x.e = "zero" -> 0
     [] x.e = "add" -> Fadd(Denote(st, x.a), Denote(st, x.b))
     [] x.e = "sub" -> Fsub(Denote(st, x.a), Denote(st, x.b))
     [] x.e = "neg" -> Fneg(Denote(st, x.a))
-    [] x.e = "mul" -> Fmul(Denote(st, x.a), x.c)
-    [] x.e = "collect" -> SumSeq([j \in 1 .. Len(x.terms) |-> Fmul(x.terms[j][3], TermVal(st, x.terms[j]))])
+    [] x.e = "mul" -> Fmul(Denote(st, x.a), Norm(x.c))
+    [] x.e = "collect" -> SumSeq([j \in 1 .. Len(x.terms) |-> Fmul(Norm(x.terms[j][3]), TermVal(st, x.terms[j]))])
 
 LCDenotation(st, x) == PEval(st, ExprTerms(x)) = Denote(st, x)
 =============================================================================
